@@ -34,7 +34,7 @@ SPEC = [
     ("numbering_formats.py", ["ROMAN_SUBS", "lower_letter", "upper_letter", "lower_roman",
                               "upper_roman", "decimal", "bullet"]),
     ("text_runs.py", ["html_open", "html_close"]),
-    ("depth_collector.py", ["Run.__str__", "Par.run_strings", "get_par_strings"]),
+    ("depth_collector.py", ["Run.__str__", "Par.run_strings", "get_par_strings", "DepthCollector.escape"]),
     ("docx_output.py", ["_join_runs"]),
     ("iterators.py", ["enum_at_depth", "iter_at_depth", "iter_tables", "iter_rows", "iter_cells",
                       "iter_paragraphs", "enum_tables", "enum_rows", "enum_cells",
